@@ -88,9 +88,9 @@ TRUSTED = [
     'modelled (Model.router_traversal), the statement slice is shape-pinned; the rest of handle_request is not modelled',
     'route matching is an ORACLE for the `route` operations (the match dictionary handed to the model is the one the real '
     'routes mapper returns; C01 verifies the matcher), but its traverse / subpath entries are no longer taken on trust: the '
-    '`rmd` operations recompute them in the model from the {name} captures and the decoded remainder (harness arithmetic: '
-    'remainder = decoded PATH_INFO after the literal prefix and the captures) and pyramid.predicates.TraversePredicate is '
-    'shape-pinned',
+    '`rmd` operations recompute them in the model from the decoded PATH_INFO, the literal pieces of the pattern and the values '
+    'of the {name} captures in front of the remainder (Model.route_remainder / route_piece; which pieces belong to which '
+    'route is a per-route table in prop.py) and pyramid.predicates.TraversePredicate is shape-pinned',
 ]
 TECHNIQUE = ('Coq proof (induction over the segment list / the walk) about a Gallina program whose control flow is translated '
              'from the Python source on every run (fail-closed ast translator, leaves through a small primitive table), proved '
@@ -109,7 +109,8 @@ LEVEL_TEXT = ('Machine-checked theorems for trees, paths and virtual roots of an
               'whichever resource is passed and a relative path from the resource passed, split_path_info drops ONLY the '
               "segments '', '.', '..' (every list of other segments survives unchanged), the public normalisers meet the "
               'normalisation clause whenever the text decodes, a request whose item lookups run nested traversals answers like '
-              'the cache-free traverser and leaves every later history unaffected, Router.handle_request writes exactly the dictionary onto the request, and memoisation '
+              'the cache-free traverser and leaves every later history unaffected (its order premise -- no memoised call at or '
+              'after the entry of the walk loop -- is a fact the translator regenerates), Router.handle_request writes exactly the dictionary onto the request, and memoisation '
               '(split_path_info, traversal_path_info, _join_path_tuple LRUs and the (segment, safe) dictionary; any valid '
               'cache state, any history of traversals, Router requests, traverse()/find_resource() calls, path splits and '
               'segment quotings) never changes an answer, nor does reusing one traverser object for a history of requests '
@@ -383,17 +384,15 @@ def _rmd_wire(o):
     rec = RECIPES.get(name, {})
 
     def captured(r):
+        # the remainder / the k-th piece are computed by the MODEL (Model.route_remainder / route_piece) from the
+        # decoded path and the pieces in front of the remainder: literals of the pattern and the values of the {name}
+        # captures (taken from the real match)
         if r is None:
             return []
         if r[0] == 'seg':
-            return [decoded.split('/')[r[1]]]
-        # the capture names of the prefix are those of the pattern BEFORE the remainder (never `traverse` itself when
-        # it is the remainder that is being captured)
-        prefix = ''.join(match[x] if (x in match and not x.startswith('/')) else x for x in r[1])
-        if not decoded.startswith(prefix):
-            return [['\x00PREFIX-MISMATCH']]
-        rem = decoded[len(prefix):]
-        return [rem] if r[0] == 'remstr' else [[rem]]
+            return [[3, decoded, r[1]]]
+        pieces = [match[x] if (x in match and not x.startswith('/')) else x for x in r[1]]
+        return [[2 if r[0] == 'remstr' else 1, decoded, pieces]]
     opt = rec.get('opt')
     optw = [] if opt is None else [[n[1:] if n.startswith('=') else match[n] for n in opt]]
     return [7, captured(rec.get('cap')), captured(rec.get('subpath')), optw]
@@ -1316,6 +1315,8 @@ def kinds(case, obs):
         if k == 'rmd':
             got = _rmd_info(op)
             ks.append('rmd:' + ('no-match' if got is None else got[0]))
+            if got is not None and got[1].get('traverse') in ('', ()) :
+                ks.append('rmd-empty-captured-traverse')
         if k in ('router', 'route'):
             ks.append('entry:' + k)
             ks.append('vroot:' + ('absent' if op['vroot'] is None else 'present'))
